@@ -246,6 +246,18 @@ def f17Env : Env Unit where
   task := fun id now _ => ((), if id = 2 then [⟨now + 2, 0⟩] else if id = 3 then [⟨now + 2, 1⟩] else [])
   dsp := fun _ _ => ((), [])
 
+/-- a program with records of two sizes: closure 10 captures a word (`cells 10 = [100, 999]`), the others are one cell.
+`t3@1` (schedules `t0`, `t1` for `now+5`: records at `base`, `base+1`), `t2@2` (schedules closure 10 for `now+1`: record
+at `base`, `base+1`). -/
+def recEnv : Env Unit where
+  global := fun _ => ((), [⟨1, 3⟩, ⟨2, 2⟩])
+  task := fun id now _ => ((), if id = 3 then [⟨now + 5, 0⟩, ⟨now + 5, 1⟩] else if id = 2 then [⟨now + 1, 10⟩] else [])
+  dsp := fun _ _ => ((), [])
+
+def recFmt : RecFmt where
+  cells := fun id => if id = 10 then [100, 999] else [1 + id]
+  decode := fun rd => if rd 0 = 100 then some 10 else if 1 ≤ rd 0 ∧ rd 0 < 100 then some (rd 0 - 1) else none
+
 /-- a self-rescheduling counter (`scheduler_global_recursion.mmm`): premise holds, the chain theorem applies. -/
 def counterEnv : Env Nat where
   global := fun s => (s, [⟨1, 0⟩])
